@@ -49,6 +49,32 @@ CLAIMED["C03"] = dict(
          "the alphabet. Direct parameter edits in eval mode are excluded by the property.",
     technique="TLA+ cache state machine checked by TLC (incl. rejected broken variants); spec histories replayed on real models against fresh-model oracle; TLC trace validation of cache hook events")
 
+CLAIMED["C04"] = dict(
+    category="model_checking",
+    text="Fantasy.tla has three parts, all checked by TLC: the batch-shape reconciliation of get_fantasy_model transcribed and compared with the documented "
+         "meaning on every supported (model, input, target) batch triple; the bordered-system update of the cached solve evaluated exactly over rationals "
+         "(LinAlg.tla) against the solve of the concatenated system and the Gaussian conditional on all data; and a source/fantasy machine with "
+         "SourceUntouched and DataIsConcatenation. Every generated triple x likelihood (homoskedastic, fixed noise, fixed+learned, multitask) x strategy x "
+         "fast_pred_var x detach_test_caches x re-fantasizing depth 1..3 is replayed: fantasy predictions vs a fresh ExactGP on the concatenated data (1e-7), "
+         "carried A^-1(y-m) and R R^T = A^-1 vs recomputation, source snapshot (state_dict, data identity, cache entries, recorded cache events) before/after.",
+    design_ref="DESIGN.md section 6 (C04)",
+    note="Rational instances: n,m <= 2 with linear-kernel Gram matrices (250 quick / 1500 thorough); real inputs are seeded samples (5 training, 2 fantasy points "
+         "per step). Supported batch patterns are those of the get_fantasy_model docstring; fixed noise is shared when the fantasy inputs are shared.",
+    technique="TLA+ shape algebra + exact rational linear algebra in TLC; configurations replayed on real models against a from-scratch oracle and snapshots")
+CLAIMED["C12"] = dict(
+    category="model_checking",
+    text="Noise.tla states, for every cell of the Gaussian-likelihood configuration lattice, the multiset of noise terms the documentation prescribes (each at "
+         "most once, Kronecker layout following the input, broadcast batch shape) next to a line-by-line transcription of _shaped_noise_covar, the noise-model "
+         "forward methods and the *params/**kwargs/noise= routing including LikelihoodList; TLC checks Code = Expected on the whole lattice. Every cell is "
+         "replayed into the real likelihoods with distinguishable noise magnitudes and the bag of terms actually added is decoded exactly from "
+         "likelihood(dist).covariance_matrix - dist.covariance_matrix (layout, off-diagonal rank>0 entries, batch shape); expected_log_prob, log_marginal and "
+         "the conditional are compared with closed forms at 1e-9.",
+    design_ref="DESIGN.md section 6 (C12)",
+    note="The discrete dimension (which terms, how often, where) is exhausted by TLC and bound cell by cell; numeric inputs and event sizes (n <= 5, t <= 3) are "
+         "sampled. Readings where the docs are ambiguous are listed in the evidence assumptions (FixedNoise on a different n without noise= means R = 0 "
+         "[+ learned], noise= on a homoskedastic model is used directly, ...).",
+    technique="TLC-enumerated configuration lattice with exact term-multiset decoding replay")
+
 PENDING = "check not built yet (build in progress; see DESIGN.md section 11)"
 NOT_APPLICABLE = {}
 
